@@ -420,6 +420,7 @@ struct Paths
         {
             Scan raw;
             Outcome o;
+            unsigned skipmask = (unsigned)op.num("skip");
             guarded(o, [&] {
                 with_read_device<Tag>(d, bytes, ext, [&](auto& dev) {
                     using dev_t = typename std::remove_reference<decltype(dev)>::type;
@@ -436,6 +437,7 @@ struct Paths
                     long row = 0;
                     for (; it != end && row < h; ++it, ++row)
                     {
+                        if ((skipmask >> (row % 16)) & 1u) continue; // stepped over without dereferencing: reader.skip()
                         unsigned char* rowp = *it;
                         gil::copy_pixels(gil::interleaved_view((std::size_t)w, 1, (xit_t)rowp, (std::ptrdiff_t)reader._scanline_length),
                                          gil::subimage_view(gil::view(raw), 0, (int)row, (int)w, 1));
@@ -451,6 +453,9 @@ struct Paths
             if (o.cls != "ok") return fail(o.cls == "dims" || o.cls == "rows" || o.cls == "short" ? "scanline-mismatch" : "unexpected-exception", "scanline reader: " + o.cls + " " + o.what);
             Native conv(W, H);
             gil::copy_and_convert_pixels(gil::const_view(raw), gil::view(conv)); // same colour space: pairs channels by colour / rescales the channel
+            for (long row = 0; row < H; ++row) // rows that were skipped are not compared
+                if ((skipmask >> (row % 16)) & 1u)
+                    gil::copy_pixels(gil::subimage_view(gil::const_view(ref), 0, (int)row, (int)W, 1), gil::subimage_view(gil::view(conv), 0, (int)row, (int)W, 1));
             if (!views_equal(gil::const_view(ref), gil::const_view(conv), why)) return fail("scanline-mismatch", "rows delivered by the scanline reader differ from read_image: " + why);
             return ok;
         }
